@@ -30,5 +30,5 @@ func exec(p lsm.Program, c *hx.Case) error {
 }
 
 func TestPropCheckpoint(t *testing.T) {
-	hx.Run(t, hx.Spec{Prop: "C08", Persist: true, Rule: "5..80 operations: the C07 history plus Checkpoint(id) (model copied at the call), holds of flush/compaction/WAL-save/checkpoint-file-save so that checkpoints are taken with tasks in flight and with an earlier checkpoint's save pending, Retain(subset), and crash-restores; every retained handle is restored on the storage materialised as of later storage operations (all of them with VERIF_CRASH_ALL=1 = thorough tier, the last plus <=3 drawn ones otherwise) and must equal the model copy (Get of every key + full scan); restored databases are written to, checkpointed and restored again (chains to depth 3); non-trivial = >=1 restore and a checkpoint taken with a background task in flight, or a second checkpoint after such a one, or a chain of depth >=2"}, gen, exec)
+	hx.Run(t, hx.Spec{Prop: "C08", Persist: true, Rule: "5..80 operations: the C07 history plus Checkpoint(id) (model copied at the call), holds of flush/compaction/WAL-save/checkpoint-file-save so that checkpoints are taken with tasks in flight and with an earlier checkpoint's save pending, Retain(subset), and crash-restores; every retained handle is restored on the storage materialised as of later storage operations (all of them with VERIF_CRASH_ALL=1 = thorough tier, the last plus <=3 drawn ones otherwise) and must equal the model copy (Get of every key + full scan); restored databases are written to (6, 2 or no operations: an incarnation may be checkpointed while idle), checkpointed and restored again (chains to depth 4); non-trivial = >=1 restore and a checkpoint taken with a background task in flight, or a second checkpoint after such a one, or a chain of depth >=2"}, gen, exec)
 }
